@@ -9,8 +9,8 @@ def overlay(o):
         e.wrap_item("enum", "Error")
     c = o.file("src/composer/compress.rs")
     c.wrap_item("struct", "PackedCircuitReader")
-    c.wrap_item("const", "CompressedCircuit::PACKED_FIXED_BYTES")
-    c.wrap_item("const", "CompressedCircuit::PACKED_BYTES_PER_CONSTRAINT")
+    c.wrap_const_closure("CompressedCircuit::PACKED_FIXED_BYTES")
+    c.wrap_const_closure("CompressedCircuit::PACKED_BYTES_PER_CONSTRAINT")
     f = c.fn("PackedCircuitReader::new")
     f.verus("compress.PackedCircuitReader::new", ret="r", ensures=["r.remaining@ == packed@"])
     f = c.fn("PackedCircuitReader::is_empty")
